@@ -725,6 +725,13 @@ func headerEpisode(t *testing.T, r *kit.Run, a *adapter, rng *rand.Rand, maxN, s
 	}
 }
 
+func min1(n int) int {
+	if n > 1 {
+		return 1
+	}
+	return n
+}
+
 func describeShort(cs []*hdrCase) interface{} {
 	var out []interface{}
 	for _, c := range cs {
@@ -798,6 +805,20 @@ func depositEpisode(t *testing.T, r *kit.Run, a *adapter, rng *rand.Rand, maxN, 
 	}
 	v2 := st.Commit()
 	vers := []*tmsynth.Version{v1, v2}
+	// a second application state of the same chain committed ICS-23 style ("ics23:simple" ops): the
+	// cosmos router registers commitment-op decoders besides the legacy iavl / multistore ops
+	var ics *tmsynth.IcsState
+	var icsKeys [][]byte
+	if a.name == "cosmos" {
+		kv := map[string][]byte{}
+		for i := 0; i < 3+rng.Intn(4); i++ {
+			k := []byte(fmt.Sprintf("ics/%02d-%x", 2*i, rng.Uint32()))
+			kv[string(k)] = honestMessage(rng, fmt.Sprintf("ics-%d-%d", ep, i))
+			icsKeys = append(icsKeys, k)
+		}
+		ics = tmsynth.NewIcsState(a.store, kv, a.others...)
+		vers = append(vers, ics.AsVersion())
+	}
 	msgIn := func(v *tmsynth.Version, msg []byte) bool { return v.HasValue(a.storedVal(msg)) }
 	height := h0
 	done := map[string]bool{} // messages already imported once (a second import is a replay, refused by design)
@@ -819,7 +840,10 @@ func depositEpisode(t *testing.T, r *kit.Run, a *adapter, rng *rand.Rand, maxN, 
 		foreign := false
 		appHash := ver.AppHash
 		kind := []string{"honest", "honest", "wrong-value", "wrong-keypath", "other-apphash", "unverified-header", "absence-empty-kp", "absence-empty-kp",
-			"absence-with-kp", "existence-empty-kp", "random-apphash", "proof-of-other-key"}[rng.Intn(12)]
+			"absence-with-kp", "existence-empty-kp", "random-apphash", "proof-of-other-key",
+			"ics23-honest", "ics23-wrong-value", "ics23-absence-forged-value", "ics23-absence-forged-value", "ics23-absence-empty-kp"}[rng.Intn(12+5*len(icsKeys[:min1(len(icsKeys))]))]
+		var icsProof *merkle.Proof
+		icsAbsent := false
 		proofKey := en.k
 		value := en.msg
 		kp := st.KeyPath(proofKey)
@@ -827,6 +851,38 @@ func depositEpisode(t *testing.T, r *kit.Run, a *adapter, rng *rand.Rand, maxN, 
 			kp = tmsynth.KeyPath(a.store, proofKey, false)
 		}
 		switch kind {
+		case "ics23-honest", "ics23-wrong-value":
+			k := icsKeys[rng.Intn(len(icsKeys))]
+			proofKey, value, appHash = k, ics.KV[string(k)], ics.AppHash
+			kp = tmsynth.KeyPath(a.store, k, rng.Intn(2) == 0)
+			icsProof = ics.ProveExist(k)
+			if kind == "ics23-wrong-value" {
+				value = honestMessage(rng, fmt.Sprintf("icswv-%d-%d", ep, ci))
+			}
+		case "ics23-absence-forged-value", "ics23-absence-empty-kp":
+			// a genuinely valid NON-existence proof of some absent key (before / between / after the
+			// committed keys), submitted as if it proved the forged message
+			var k []byte
+			switch rng.Intn(3) {
+			case 0:
+				k = []byte("ics/")
+			case 1:
+				k = append(append([]byte{}, icsKeys[rng.Intn(len(icsKeys))]...), 'x')
+			default:
+				k = []byte("ics/zzzz")
+			}
+			p, err := ics.ProveAbsent(k)
+			if err != nil {
+				r.Count("cosmos_ics23_absence_proof_not_buildable", 1)
+				continue
+			}
+			icsProof, icsAbsent = p, true
+			proofKey, appHash = k, ics.AppHash
+			value = honestMessage(rng, fmt.Sprintf("icsforged-%d-%d", ep, ci))
+			kp = tmsynth.KeyPath(a.store, k, rng.Intn(2) == 0)
+			if kind == "ics23-absence-empty-kp" {
+				kp = ""
+			}
 		case "wrong-value":
 			value = honestMessage(rng, fmt.Sprintf("wv-%d-%d", ep, ci))
 		case "wrong-keypath":
@@ -900,7 +956,16 @@ func depositEpisode(t *testing.T, r *kit.Run, a *adapter, rng *rand.Rand, maxN, 
 		s := tmsynth.Spec{Height: height, BlockVersion: bv, Vals: hv, NextHash: tmsynth.Hash(hv, bv), AppHash: appHash, Salt: byte(ci)}
 		s.Kinds = kindsFor(rng, tmsynth.Order(hv, bv), signers(rng, hv, ex, mode), filler)
 		hc := a.build(rng, s, "deposit-header-"+mode)
-		proof, pv := st.Prove(ver.Ver, proofKey)
+		var proof *merkle.Proof
+		var pv []byte
+		if icsProof != nil {
+			proof = icsProof
+			if !icsAbsent {
+				pv = ics.KV[string(proofKey)]
+			}
+		} else {
+			proof, pv = st.Prove(ver.Ver, proofKey)
+		}
 		rec := chains.Import(e, a.chainID, uint32(height), a.proofEnc(proof), a.extraEnc(kp, value), hc.raw)
 		after := a.read(e, a.chainID)
 		r.Eval(1)
@@ -928,6 +993,9 @@ func depositEpisode(t *testing.T, r *kit.Run, a *adapter, rng *rand.Rand, maxN, 
 		}
 		r.Count(a.name+"_deposit_accepted", 1)
 		done[string(value)] = true
+		if kind == "ics23-honest" {
+			r.Count(a.name+"_ics23_honest_accepted", 1)
+		}
 		if kind == "honest" {
 			r.Count(a.name+"_deposit_honest_accepted", 1)
 			if r.Get(a.name+"_deposit_honest_accepted") == 1 {
@@ -946,6 +1014,9 @@ func depositEpisode(t *testing.T, r *kit.Run, a *adapter, rng *rand.Rand, maxN, 
 		case !hdrOK:
 			viol(r, a.name+":deposit-accepted-under-unverified-header",
 				fmt.Sprintf("deposit kind=%s accepted although the header is not verifiable against the tracked set (valset ok=%v, valid power %d of %d)", kind, hc.valsetOK(before), hc.validPower, hc.total), replay())
+		case !exists && icsAbsent:
+			viol(r, a.name+":ics23-absence-proof-accepted-as-deposit",
+				fmt.Sprintf("ImportOuterTransfer accepted a forged message backed only by a valid ics23 NON-existence proof of key %q (key path %q) under an honestly verified header", proofKey, kp), replay())
 		case !exists && kp == "" && pv == nil:
 			viol(r, a.name+":absence-proof-accepted-as-deposit",
 				fmt.Sprintf("ImportOuterTransfer accepted a message that is NOT in the committed state: empty key path + absence proof of key path string(Value)=%q under an honestly verified header", string(value[:40])+"…"), replay())
@@ -959,7 +1030,7 @@ func depositEpisode(t *testing.T, r *kit.Run, a *adapter, rng *rand.Rand, maxN, 
 func TestC30(t *testing.T) {
 	r := kit.Start(t, "C30", "exploration")
 	defer r.Finish()
-	r.Rule("per router: episodes = a synthetic chain (block version, N validators, power shape) followed through submissions of kinds {honest minimal/all quorum, at most 2/3 (just below / exactly) with absent+nil fillers, same with forged/wrong-height/wrong-block/wrong-chain/foreign-key/nil-as-commit fillers, same with the complete CommitSig of a signer repeated in the other slots, quorum+noise, foreign validator set, not-higher height, commit/header mismatch, multi-header calls (heights ascending / descending / arbitrary within the call), no-change, second genesis}; deposits = {honest existence, wrong value, wrong key path, other/random app hash, unverifiable header, absence proof with empty / non-empty key path, existence proof with empty key path, proof of another key}; distinct = (router, version, N, shape, kind, slot-kind vector, quorum class, outcome)")
+	r.Rule("per router: episodes = a synthetic chain (block version, N validators, power shape) followed through submissions of kinds {honest minimal/all quorum, at most 2/3 (just below / exactly) with absent+nil fillers, same with forged/wrong-height/wrong-block/wrong-chain/foreign-key/nil-as-commit fillers, same with the complete CommitSig of a signer repeated in the other slots, quorum+noise, foreign validator set, not-higher height, commit/header mismatch, multi-header calls (heights ascending / descending / arbitrary within the call), no-change, second genesis}; deposits = {honest existence, wrong value, wrong key path, other/random app hash, unverifiable header, absence proof with empty / non-empty key path, existence proof with empty key path, proof of another key, ics23 commitment-op proofs (cosmos): existence with right / wrong value, valid non-existence proof with a forged value and with empty key path}; distinct = (router, version, N, shape, kind, slot-kind vector, quorum class, outcome)")
 	r.Assume("tendermint v0.33.7 / switcheo tendermint v0.34.14 (hashes, sign-bytes, key types), cosmos-sdk v0.39.1 rootmulti + iavl v0.14.0 (app hashes, proofs) are the reference producers of honest data")
 	r.Assume("'valid signature' is judged by construction: a slot counts iff the check itself signed the canonical precommit (chain id, commit height = header height, round, block id = header hash) with the validator's own key")
 	r.Assume("'validator set hashes to the trusted next-validator hash' accepts either the amino-era or the protobuf-era hash of the submitted set (weaker reading, covers the chain-upgrade block)")
@@ -1028,5 +1099,7 @@ func TestC30(t *testing.T) {
 		r.Require(a.name+"_deposit_refused", r.N(10, 100))
 	}
 	r.Require("cosmos_deposit_absence-empty-kp", 5)
+	r.Require("cosmos_deposit_ics23-absence-forged-value", r.N(5, 50))
+	r.Require("cosmos_ics23_honest_accepted", r.N(3, 30))
 	_ = hex.EncodeToString
 }
